@@ -350,3 +350,36 @@ def field_origin(v: Any) -> str:
     if isinstance(v, TupleV):
         return f"tuple{[field_origin(x) for x in v.items]}"
     return repr(v)
+
+
+def normalised_origin(v: Any) -> str:
+    import re as _re
+    o = field_origin(v)
+    o = _re.sub(r"@\d+", "", o)
+    return _re.sub(r"\bi\d+\b", "i", o)
+
+
+def field_placement(m: Model, r, rid: str, ca: "CodecAnalyser", classes: list[ClassInfo], table: dict[str, dict[str, str]]) -> int:
+    """Each named field of the oracle table is decoded from the ISO position on every accepted path that defines it."""
+    n = 0
+    by_name = {c.name: c for c in classes}
+    for cname, fields in sorted(table.items()):
+        c = by_name.get(cname)
+        if c is None:
+            continue
+        a = ca.analyse(c)
+        for fname, want in fields.items():
+            got = set()
+            for p in a.accepted:
+                v = (p.fields or {}).get(fname)
+                if v is None:
+                    continue
+                o = normalised_origin(v)
+                if o != "None":
+                    got.add(o)
+            if not got:
+                raise AnalysisError(f"{c.qualname}: field {fname} of the ISO placement table is not stored by the parsed object")
+            n += 1
+            r.check(got == {want}, rid, f"{c.qualname}.{fname}#iso-position",
+                    f"{fname} is decoded from {sorted(got)}; ISO 14229-1 places it at {want} (a swap made in both the serialiser and the parser still round-trips)", loc=c.loc)
+    return n
